@@ -159,7 +159,17 @@ ops.append(op("GetStatus", ["serialNumber"], "serialNumber", ["res", "err"], "0x
     "(wire.u32(R, 8) != 0 ==> res.Event.Index == wire.u32(R, 8) && res.Event.Type == R[12] && (res.Event.Granted <==> R[13] == 1) && res.Event.Door == R[14] && res.Event.Direction == R[15] && res.Event.CardNumber == wire.u32(R, 16) && res.Event.Reason == R[27] && " + rdt(20, "res.Event.Timestamp") + ") && "
     # controller system date + time (the recombination for a present date is not decided: the engine cannot bound the
     # year of the decoded system date during symbolic execution, so the Format/Parse models stay opaque - see DESIGN.md)
-    "(!wire.rsysdateOK(R, 51) ==> res.SystemDateTime.abs == 0 && res.SystemDateTime.ns == 0)"))
+    "(!wire.rsysdateOK(R, 51) ==> res.SystemDateTime.abs == 0 && res.SystemDateTime.ns == 0) && "
+    # a present system date + time: one local date-time with exactly the transmitted civil fields, whenever the three
+    # civil times involved (the date at midnight, the time of day on the reference day, the combination) exist in the zone
+    "(wire.rsysdateOK(R, 51) && time.dateAbs(time.civil(wire.rsysY(R, 51), bcd.val2(R[52]), bcd.val2(R[53]), 0, 0, 0), time.Local) != 0 && "
+    "time.exists(time.civil(wire.rsysY(R, 51), bcd.val2(R[52]), bcd.val2(R[53]), 0, 0, 0), time.Local) && "
+    "time.exists(time.civil(0, 1, 1, bcd.val2(R[37]), bcd.val2(R[38]), bcd.val2(R[39])), time.Local) && "
+    "time.exists(time.civil(wire.rsysY(R, 51), bcd.val2(R[52]), bcd.val2(R[53]), bcd.val2(R[37]), bcd.val2(R[38]), bcd.val2(R[39])), time.Local) ==> "
+    "time.year(res.SystemDateTime.abs, res.SystemDateTime.loc) == wire.rsysY(R, 51) && time.month(res.SystemDateTime.abs, res.SystemDateTime.loc) == bcd.val2(R[52]) && "
+    "time.day(res.SystemDateTime.abs, res.SystemDateTime.loc) == bcd.val2(R[53]) && time.hour(res.SystemDateTime.abs, res.SystemDateTime.loc) == bcd.val2(R[37]) && "
+    "time.minute(res.SystemDateTime.abs, res.SystemDateTime.loc) == bcd.val2(R[38]) && time.second(res.SystemDateTime.abs, res.SystemDateTime.loc) == bcd.val2(R[39]))",
+    noaxioms="time.off,time.decomp,time.cal.range,time.cal.inv2,time.cal.mono,time.exists,time.dayExists,time.civil.def"))
 
 print("// ---- GENERATED by /verif/tools/gen_op_contracts.py: begin ----")
 print()
